@@ -125,7 +125,7 @@ type c04Machine struct {
 }
 
 func checkC04(c *Ctx) {
-	c.Rule = "(a) every result operation a machine hands out during full ceremonies, signing, reinitialisation and deliberately failing operations is decoded recursively (JSON strings, base64 std/url, hex, gob; depth 6) and searched for the long-term private scalar, the seed, each coefficient of the dealer's secret polynomial and the BLS share in raw/hex/base64 forms and both byte orders; every needle is first validated against public values (sk*G == GetPubKey, Commit(f) == broadcast commitments). (b) every deal ciphertext is tried with every non-addressee's private key (must fail) and the addressee's (must open). (c) ten wrong passwords per machine: LoadKeysFromDB and GetBLSKeyrings must fail; the raw LevelDB files are searched for the private key and the share. (d) pairs of rounds on the same machines (same/different threshold, same/permuted/partly different participants): group key, shares and dealer commitment vectors must differ. (h) monitor over the Schnorr nonces inside the deals with machines restarted between and inside rounds. (i) the prompt's password-expiration timer (DropSensitiveData in a goroutine, the harness holding the machine lock like cmd/airgapped does; the goroutine's wait state is read from the goroutine dump) fires during each operation type; afterwards the database must open under the operator's password and under no other. (j) the same password judgement on the database left by the shipped cmd/airgapped binary operated through its prompt on a pseudo-terminal (child process). After (i): the running machine, locked (DropSensitiveData) or with a wrong password set, is fed a signing operation and must not answer with a partial signature. distinct = distinct (part, n, t, operation type or pair shape)"
+	c.Rule = "(a) every result operation a machine hands out during full ceremonies, signing, reinitialisation and deliberately failing operations is decoded recursively (JSON strings, base64 std/url, hex, gob; depth 6) and searched for the long-term private scalar, the seed, each coefficient of the dealer's secret polynomial and the BLS share in raw/hex/base64 forms and both byte orders; every needle is first validated against public values (sk*G == GetPubKey, Commit(f) == broadcast commitments). (b) every deal ciphertext is tried with every non-addressee's private key (must fail) and the addressee's (must open). (c) ten wrong passwords per machine: LoadKeysFromDB and GetBLSKeyrings must fail; the raw LevelDB files are searched for the private key and the share. (d) pairs of rounds on the same machines (same/different threshold, same/permuted/partly different participants): group key, shares and dealer commitment vectors must differ. (h) monitor over the Schnorr nonces inside the deals with machines restarted between and inside rounds. (i) the prompt's password-expiration timer (DropSensitiveData in a goroutine, the harness holding the machine lock like cmd/airgapped does; the goroutine's wait state is read from the goroutine dump) fires during each operation type; afterwards the database must open under the operator's password and under no other. (j) the same password judgement on the database left by the shipped cmd/airgapped binary operated through its prompt on a pseudo-terminal (child process). After (i): the running machine, locked (DropSensitiveData) or with a wrong password set, is fed a signing operation and must not answer with a partial signature. Nonce monitor: the sealed records of every judged database (AES-GCM under one key) must carry pairwise different nonces; the real binary completes further rounds in separate process lives. distinct = distinct (part, n, t, operation type or pair shape)"
 	c.Assumptions = []string{"the harness knows the mnemonic, hence the seed; re-derived secrets that do not validate against public values are reported inconclusive, never skipped silently", "the clause 'nothing learned in one round helps against another' is decided through its observable consequences only"}
 	cases := ntCases(c.Pick(4, 5))
 	Parallel(len(cases), 8, func(i int) { runC04Ceremony(c, cases[i].N, cases[i].T, c.Seed*137+uint64(i)) })
